@@ -86,6 +86,14 @@ def make_case(seed):
                     tw = rng.choice([avail - 2, avail - 1, avail, avail + 1, avail + 2, 2 * avail, 2 * avail + 1, 3 * avail,
                                      5 * avail])
                     t = edge_text(rng, max(1, tw), meta['tabs'] in (1, 2, 4, 8) and rng.random() < 0.3)
+                if r >= 0.45 and r < 0.5 and str(opts.get('--wrap-max-lines', '2')) in ('unlimited', '∞', 'inf', '0'):
+                    # a very regular line that needs dozens of rows (a list of numbers with another separator on the other
+                    # side): every row ends on a boundary between two style sections
+                    n_items = (rng.choice([18, 25, 40]) * avail) // 2
+                    sep = {'-': ',', '+': ';', ' ': '+'}[k]
+                    t = sep.join(str(i % 10) for i in range(max(4, n_items)))
+                    if 'many-rows-regular' not in meta['classes']:
+                        meta['classes'] = meta['classes'] + ['many-rows-regular']
                 if (opts.get('--line-numbers-right-format') == '' or 'no-ln-by-config' in meta['classes']) and t[:1] in gen.LEADING_EXTENDERS:
                     # without a gutter between the panels a zero-width character that opens the right panel cannot be told
                     # from one that closes the left panel
